@@ -151,7 +151,9 @@ func doReq(w *world, scopes []tally.Scope, r Req) {
 		if r.N == 0 {
 			ch = sc.SubScope(n)
 		} else {
-			ch = sc.Tagged(map[string]string{"k": n})
+			tg := map[string]string{"k": n}
+			ch = sc.Tagged(tg)
+			pbt.Spoil(tg)
 		}
 		w.saw(fmt.Sprintf("child/%d/%s", r.S, n), ch)
 		c := ch.Counter("cc")
